@@ -713,6 +713,65 @@ def run_workers(mode, specs, tmp, tag, par=14, timeout=900):
 # generation of programs and histories
 # ---------------------------------------------------------------------------------------------
 
+# ---------------------------------------------------------------------------------------------
+# order differential on blocks of near-duplicate programs (the exhaustive small scope of tools/streams.py): the same
+# programs analysed in one process in two different orders must give the same result each -- whatever an analysis leaves
+# behind under a key that is coarser than its whole input changes the result of a neighbour analysed later
+# ---------------------------------------------------------------------------------------------
+
+def _order_worker(args):
+    block, rev = args
+    from pycparser import CParser
+    from pymwp import Analysis, LoopAnalysis
+    seq = [(lab, src, kind) for lab, src in block for kind in ("L", "F")]
+    if rev:
+        seq = list(reversed(seq))
+    out = {}
+    for lab, src, kind in seq:
+        try:
+            ast = CParser().parse(src)
+            if kind == "F":
+                r = vlib.with_timeout(lambda: Analysis.run(ast, fin=False, strict=False), 20)
+            else:
+                r = vlib.with_timeout(lambda: LoopAnalysis.run(ast, strict=False), 20)
+            out[(lab, kind)] = json.dumps(canon(r.to_dict()), sort_keys=True, default=str)
+        except vlib.CaseTimeout:
+            out[(lab, kind)] = "timeout"
+        except Exception as e:
+            out[(lab, kind)] = "exc:" + str(vlib.exc_sig(e))
+    return out
+
+
+def order_phase(ctx, failing):
+    import multiprocessing as mp
+    import streams
+    allp = streams.small_scope_all()
+    by_block = {}
+    for lab, src in allp:
+        key = tuple(lab.split(":")[1:4])          # prefix, loop kind, first statement: 54 programs differing in the second statement
+        by_block.setdefault(key, []).append((lab, src))
+    keys = sorted(by_block)
+    pick = ctx.rng.sample(keys, min(len(keys), ctx.n(8, 96)))
+    items = [(by_block[k], rev) for k in pick for rev in (False, True)]
+    vlib.import_pymwp()
+    with mp.get_context("fork").Pool(16, maxtasksperchild=1) as pool:
+        res = pool.map(_order_worker, items, chunksize=1)
+    ncmp = 0
+    for bi, k in enumerate(pick):
+        fwd, bwd = res[2 * bi], res[2 * bi + 1]
+        for key in fwd:
+            ncmp += 1
+            if fwd[key] != bwd.get(key) and "timeout" not in (fwd[key], bwd.get(key)):
+                lab, kind = key
+                src = dict(by_block[k])[lab]
+                if sum(1 for f in failing if f["sig"] == ["C13", "order"]) < 2:
+                    failing.append({"what": f"order: the {'loop' if kind == 'L' else 'function'}-mode result of a program depends on whether 107 near-duplicates "
+                                            "of it were analysed before or after it in the same process",
+                                    "sig": ["C13", "order"], "input": {"order_block": list(k), "program": src, "kind": kind},
+                                    "expected": "the same result in both orders", "observed": "results differ"})
+    return ncmp, len(pick)
+
+
 def corpus_files(thorough):
     import glob
     out = []
@@ -739,6 +798,11 @@ def make_pool(ctx):
         src, _ = syntax_common.gen_parsed(ctx.rng, ctx.rng.choice([0.2, 0.35, 0.5]), maxdepth=2)
         pool["edge"].append((f"edge{k}", src))
     for label, src in streams.programs(ctx, ctx.n(40, 220), max_sites=ctx.n(4, 5)):
+        if ctx.rng.random() < 0.2 and not label[0].isupper() and " f(" in src:
+            # names that differ only in case (n / N): anything ordered case-insensitively ties on them
+            ren = {"x": "n", "y": "N", "z": "a", "u": "A"}
+            src = re.sub(r"\b([xyzu])\b", lambda m: ren[m.group(1)], src)
+            label += "-case"
         pool["gen"].append((label, src))
     for k in range(ctx.n(8, 40)):
         nf = ctx.rng.randrange(2, 5)
@@ -764,6 +828,28 @@ def make_pool(ctx):
         head = r.choice([f"for (i = 0; i < {G}; i++)", f"for (i = 0; i < {G}; i++)", f"while ({G} > 0)", f"while ({o1} < {G})"])
         mk = lambda body: f"int f(int x, int y, int z, int i)\n{{\n  {pre}\n  {head} {{ {body} }}\n  {post}\n}}\n"
         pool["twins"].append((f"twin{k}", mk(with_g), mk(without)))
+    # ... and a function next to the same function with ONE more (harmless) operation at the end of its last loop / of its body:
+    # everything the first analysis computed recurs in the second, at a different degree
+    import copy
+    for k in range(ctx.n(60, 600)):
+        cfg = gen_prog.Cfg(nvars=r.choice([3, 3, 4]), max_sites=4, bias=r.choice(["pair-cycle", "pair-cycle", "for-accumulate", "branch-accumulate", "tight-cycle", None]),
+                           constants=True, sugar=False, max_depth=1, max_stmts=r.choice([1, 2]))
+        g = gen_prog.Gen(r, cfg)
+        ss = g.program()
+        vs = list(g.vars) + ["q9"]
+        extra = ("s", f"{r.choice(['q9', 'q9'] + list(g.vars))} = {r.choice(g.vars)} {r.choice('*+')} {r.choice(g.vars)};")
+        ss2 = copy.deepcopy(ss)
+        loops = [s_ for s_ in ss2 if s_[0] in ("while", "dowhile", "for")]
+        if loops and r.random() < 0.7:
+            l_ = loops[-1]
+            body = l_[2] if l_[0] != "for" else l_[4]
+            if body[0] == "block":
+                body[1].append(extra)
+            else:
+                ss2.append(extra)
+        else:
+            ss2.append(extra)
+        pool["twins"].append((f"plus{k}", gen_prog.render(ss, vs), gen_prog.render(ss2, vs)))
     return pool
 
 
@@ -795,11 +881,11 @@ def make_history(rng, pool, length):
     steps = []
     while len(steps) < length:
         r = rng.random()
-        if r < 0.08 and pool.get("twins"):
+        if r < 0.12 and pool.get("twins"):
             label, a, b = rng.choice(pool["twins"])
             if rng.random() < 0.5:
                 a, b = b, a
-            kind = "L" if rng.random() < 0.4 else "F"
+            kind = "L" if rng.random() < (0.7 if label.startswith("plus") else 0.4) else "F"
             for tag, src in (("a", a), ("b", b)):
                 steps.append({"label": label + tag, "src": src, "kind": kind, "fin": False, "strict": rng.random() < 0.3, "fam": "twins"})
         elif steps and r < 0.22:
@@ -863,7 +949,8 @@ def refmodel_compare(outs, mism):
             cs = o[kind]
             for a in range(0, len(cs), sh):
                 name = f"c13p{os.getpid()}_ref_{kind}_{wi}_{a // sh}"
-                text = REF_HEADER + "Definition cases := " + vlib.cq_list(cs[a:a + sh]) + ".\nEval vm_compute in bad " + fn + " 0 cases.\n"
+                ty = "list loop_case" if kind == "loops" else "list (opk * heap * rpoly * rpoly * list (option nat * mono) * heap)"
+                text = REF_HEADER + "Definition cases : " + ty + " := " + vlib.cq_list(cs[a:a + sh]) + ".\nEval vm_compute in bad " + fn + " 0 cases.\n"
                 jobs.append((name, text))
                 idx.append((name, kind, o[key][a:a + sh]))
     res = vlib.coq_eval_many(jobs, timeout=900)
@@ -1140,12 +1227,62 @@ def run(ctx):
             except OSError:
                 pass
     mism = list(dict.fromkeys(mism))[:25]
+    # component history: the choice representation (set-based intermediate collections) is called with the same sequences at other
+    # degrees / domains in one process (oracle and generators of property C04)
+    try:
+        import props.c04 as c04
+        nch = 0
+        for _ in range(ctx.n(150, 1500)):
+            n = ctx.rng.randint(1, 4)
+            S = c04.rand_set(ctx.rng, [0, 1, 2] if ctx.rng.random() < 0.6 else [0, 1], n, 6)
+            for dom, dn, kind in (([0, 1, 2], 0, "generate"), ([0, 1, 2], 1, "generate"), ([0, 1, 2], 0, "build"), ([0, 1, 2], 2, "build"), ([0, 1, 2], 0, "generate")):
+                nch += 1
+                try:
+                    r = c04.check_case(c04.jcase(kind, dom, n + dn, S))
+                except Exception as e:
+                    r = {"what": f"raises {vlib.exc_sig(e)}", "input": None}
+                if r:
+                    failing.append({"what": "component-history: Choices built from the same delta sequences at another degree earlier in this process: " + str(r.get("what")),
+                                    "sig": ["C13", "component-history", "Choices"],
+                                    "input": {"component": "Choices", "history": [c04.jcase(k_, d_, n + x_, S) for d_, x_, k_ in
+                                              (([0, 1, 2], 0, "generate"), ([0, 1, 2], 1, "generate"), ([0, 1, 2], 0, "build"), ([0, 1, 2], 2, "build"), ([0, 1, 2], 0, "generate"))]},
+                                    "expected": r.get("expected"), "observed": r.get("observed")})
+                    break
+            if any(f["sig"][:2] == ["C13", "component-history"] for f in failing):
+                break
+        stats["component_history_calls"] = nch
+    except Exception as e:
+        mism.append(f"component history: harness error {type(e).__name__}: {e}")
+    try:
+        ncmp, nblocks = order_phase(ctx, failing)
+        stats["order_differential"] = {"blocks_of_54_near_duplicates": nblocks, "program_results_compared": ncmp}
+        stats["evaluations"] = stats.get("evaluations", 0) + 2 * ncmp
+    except Exception as e:
+        mism.append(f"order phase: harness error {type(e).__name__}: {e}")
     return {"failing": failing[:60], "corr_mismatch": mism, "stats": stats}
 
 
 def replay(ctx, data):
     """re-run a recorded history (steps, hashseed, instrument) and compare its last step with the fresh-process run"""
     inp = data.get("input", data)
+    if inp.get("component") == "Choices":
+        import props.c04 as c04
+        for case in inp["history"]:
+            r = c04.check_case(case)
+            if r:
+                return {"what": "component-history: " + str(r.get("what")), "sig": ["C13", "component-history", "Choices"], "input": inp}
+        return None
+    if inp.get("order_block"):
+        import streams
+        k = tuple(inp["order_block"])
+        block = [(lab, src) for lab, src in streams.small_scope_all() if tuple(lab.split(":")[1:4]) == k]
+        import multiprocessing as mp
+        vlib.import_pymwp()
+        with mp.get_context("fork").Pool(2, maxtasksperchild=1) as pool:
+            fwd, bwd = pool.map(_order_worker, [(block, False), (block, True)], chunksize=1)
+        if any(fwd[x] != bwd.get(x) for x in fwd):
+            return {"what": "order: results depend on the order of analysis within one process", "sig": ["C13", "order"], "input": inp}
+        return None
     steps = inp.get("steps")
     if not steps:
         return None
